@@ -97,6 +97,13 @@ def run(repo, rep, tier):
              ("bracket-present", "restore-condition", "marker"))
     L.borrow(repo, rep, "R01.9", "C04", lambda r, p: c04._binders(
         r, p, handlers=False), ("shared-scope", "scope-leak", "empty-scope"))
+    # 'exactly the text the language prescribes' for content, replacement
+    # and attribute values of every value class (str, bytes, numbers,
+    # markup objects): all paths of the conversion routine the sinks call
+    # (C02 owns the path analysis)
+    from . import c02
+    L.borrow(repo, rep, "R01.5", "C02", lambda r, p: c02._quote_paths(
+        r, p, tier), ("BAD", "class-missing"), minimum=3)
     _sinks(repo, rep)
     _cache_scope(repo, rep, func, res, steps)
     _tables(repo, rep, func)
@@ -802,6 +809,25 @@ def _cache_scope(repo, rep, func, res, steps):
               "tal:case reads a switch value only inside the Cache that "
               "evaluates it", construct="case-own-switch",
               where=L.where(func, search.lineno), detail=detail)
+    # a case belongs to the NEAREST enclosing switch: the open switches are
+    # searched from the innermost outwards, and the first one that is set
+    # ends the search
+    it = search.iter
+    inner_first = (isinstance(it, ast.Call) and src(it.func) == "reversed") \
+        or (isinstance(it, ast.Subscript) and isinstance(it.slice, ast.Slice)
+            and it.slice.step is not None
+            and src(it.slice.step).replace(" ", "") == "-1")
+    first_hit = any(isinstance(x, ast.If) and any(
+        isinstance(y, ast.Break) for y in x.body) and
+        "is not None" in src(x.test) or (
+            isinstance(x, ast.If) and "is None" in src(x.test) and any(
+                isinstance(y, ast.Break) for y in x.orelse))
+        for x in search.body)
+    rep.check(inner_first and first_hit, "R01.6", site, "tal:case binds to "
+              "the nearest enclosing tal:switch (the stack of open switches "
+              "is searched from the top, the first set entry wins)",
+              construct="case-nearest-switch",
+              where=L.where(func, search.lineno), detail=src(search.iter))
     # children see the switch: push precedes the children visit, pop follows
     L.g_pair_stack(rep, "R01.6", func, res, "self._switches")
 
